@@ -15,7 +15,7 @@ FORBIDDEN = re.compile(r'\b(sorry|admit|native_decide|bv_decide|implemented_by|u
 # which streams serve which property (module name under harness/, and the property filter passed to gen)
 STREAMS = {
     'C05': ['bufstream'], 'C06': ['bufstream'], 'C13': ['bufstream'], 'C16': ['bufstream', 'histstream'],
-    'C07': ['parsestream'], 'C08': ['parsestream'], 'C14': ['parsestream'], 'C19': ['parsestream'], 'C09': ['parsestream', 'schcstream'],
+    'C07': ['parsestream'], 'C08': ['parsestream'], 'C14': ['parsestream'], 'C19': ['parsestream', 'schcstream'], 'C09': ['parsestream', 'schcstream'],
     'C12': ['jsonstream'],
     'C01': ['schcstream'], 'C02': ['schcstream'], 'C03': ['schcstream'], 'C04': ['schcstream', 'histstream'], 'C10': ['schcstream', 'histstream'],
     'C11': ['schcstream', 'histstream'], 'C15': ['schcstream', 'histstream'], 'C17': ['schcstream'], 'C18': ['schcstream', 'histstream'], 'C20': ['schcstream'],
